@@ -78,15 +78,27 @@ def base_program(names=None, texts=None):
     return SchemaSet([f0, f1], "service.wsdl", w, set())
 
 
-def keyword_matrix(keywords=None):
+SNAKE_POSITIONS = ["local-element", "attribute", "global-element", "operation", "part"]
+
+
+def keyword_matrix(keywords=None, case_variants=None):
+    """(keyword spelling, position, program). Besides the keyword itself, `Capitalized` and `UPPER` spellings are placed where
+    the generator derives a snake_case identifier from the name (they become the keyword only after that conversion)."""
     out = []
     for kw in keywords or KEYWORDS:
         for pos in POSITIONS:
-            if pos == "service" and kw != kw.capitalize() and False:
-                continue
             ss = base_program(names={pos: kw_name(kw)})
             ss.features = {f"keyword:{kw}", f"position:{pos}"}
             out.append((kw, pos, ss))
+        if case_variants is None or kw in case_variants:
+            for spelled in {kw.capitalize(), kw.upper()} - {kw}:
+                if kw == "Self":
+                    continue
+                for pos in SNAKE_POSITIONS:
+                    words = tuple(w.lower() for w in kw.split("_"))
+                    ss = base_program(names={pos: Name(words, "snake", spelled)})
+                    ss.features = {f"keyword:{spelled}", f"position:{pos}"}
+                    out.append((spelled, pos, ss))
     return out
 
 
